@@ -4,6 +4,10 @@ from contracts import sv_wiring
 ID = "C16"
 LEVEL = "proof"
 REPLAY = "replay/c16.py"
+# bounded complement to the proof (pyvc/runner.py _start_native_side_check): the native falsifier also runs when all
+# obligations discharge -- floats are reals in the proofs (A1) and only the functions under contract are covered
+NATIVE_SIDE_CHECK = {"quick": True, "thorough": True}
+
 
 NOT_DECIDED = [
     "closeness of krylov_exp's result to exp(A)v (floating-point numerical analysis; C07 decides the flag clauses)",
